@@ -264,8 +264,10 @@ fn hot_reloading_thread(
             match events.try_recv() {
                 Ok(msg) => cache.handle_events(msg),
                 Err(crossbeam_channel::TryRecvError::Empty) => (),
-                // We won't receive events anymore, we can stop now
-                Err(crossbeam_channel::TryRecvError::Disconnected) => break,
+                // We won't receive events anymore, but callers of
+                // `hot_reload` still wait for our answers: only stop
+                // listening to events. The thread stops with the cache.
+                Err(crossbeam_channel::TryRecvError::Disconnected) => select.remove(1),
             }
         }
     }
